@@ -58,6 +58,32 @@ CHECKS.update({
    text="Both implementations are bound to the same L2 specification modules; every terminal state / add transition TLC exports is executed on the pure-Python routine and on the .pyx routine (source-level transliteration with bounds-checked memoryviews and C division) and the two results are compared with each other; the five single-pass routines are compared with the sum / average of the corresponding profile; get_tau is compared for every index pair the scans can request; the existence of all 15 pairs is checked.",
    note="executes the .pyx source semantics, not a C build: C compilation, int overflow and nogil threading are not covered"),
 })
+CHECKS.update({
+ "C05": dict(engine="C session", design_ref="5 C05",
+   technique="TLC model checking of Multi.tla (RouteSEqRouteP: accumulation over pairs = average of the divide-and-conquer profile) + execution of every exported case on the code: scalar function vs avrg(interval) of the profile function",
+   text="Multi.tla models the two routes separately as the code does (scalar accumulation over the pair list vs recursive-halving addition of pair profiles with the transcribed add routines, 1/M scaling, interval average); TLC checks their equality for every list, measure and interval (None and sub-intervals with ends on / between breakpoints). Each state is executed on the implementation under both backends (the compiled configuration takes the dedicated single-pass routines): distance(list, interval) vs profile(list).avrg(interval), bivariate, list and indices forms; SPIKE-Sync = 1 when no spike is inside.",
+   note="relational (code vs code); N = 2..4 trains, lists sampled from the grid trains by a seeded random subset in the quick tier; tolerance 1e-10"),
+ "C06": dict(engine="C session", design_ref="5 C06",
+   technique="TLC model checking of Multi.tla (PointwiseMean, PooledEvents, PermInvariant, MatrixIsBivariate) + replay of every state into the multivariate entry points and all list permutations",
+   text="TLC checks that the multivariate ISI / SPIKE profile produced by pair generation + recursive halving + add + 1/M is at every grid time (both one-sided limits) the mean of the bivariate definitions, that the multivariate SPIKE-Sync profile carries the summed counts and multiplicities per event time, that results are identical for every permutation of the list and that matrices hold the bivariate values (symmetric, diagonal 0 / 1). Every state is replayed (expected arrays / values) and re-run under permutations of the list on both backends.",
+   note="N = 3 (all 6 permutations), N = 4 (6 of 24), N = 5 in the thorough tier; lists with empty and repeated trains; small grid"),
+ "C13": dict(engine="C session", design_ref="5 C13",
+   technique="TLC model checking of Reconcile.tla (ReconcileDef, Idempotent, OrderIrrelevant) over messy trains + replay: reconcile result compared exactly, every public measure on messy input vs on the spec's normal form with Reconcile=False, input snapshots around every call",
+   text="Messy trains (any order, repetitions, values outside the edges, per-train edges) are enumerated by TLC; the four steps of reconcile are transcribed and checked against the definition (common interval, strictly increasing, exactly the distinct inputs inside, idempotent, order-irrelevant). Every state is replayed: reconcile_spike_trains(_bi) output compared exactly, returned objects must be fresh (writing to them must not reach the inputs), and each of 23 public entry-point forms is run on the messy input and on the spec's normal form with Reconcile=False under both backends (also with MRTS='auto'); all inputs are snapshotted before and compared after every call. A dedicated configuration probes the 1e-6 slack 20% inside and outside.",
+   note="train 1 exhaustive, the others from a seeded random subset; code-vs-code with nan/inf-aware equality for inputs that keep a spike inside the slack but outside the interval"),
+ "C14": dict(engine="C session", design_ref="5 C14",
+   technique="TLC enumeration (Multi.tla) of every ordered index selection x entry point + execution of all call forms on the code and comparison with each other and with the spec value",
+   text="For every list (N = 3, 4), every ordered subset of positions of size >= 2 and every entry point (profiles, scalars, matrices, directionality values / matrix) the spec computes the result on the selected sub-list; the code is called as f(list, indices=idx) (list and numpy indices), f(sub-list), f(*sub-list) and f(a, b), under both backends with interval / max_tau / MRTS / RI set; all forms must agree with each other and with the spec value.",
+   note="MRTS numeric here ('auto' depends on the list handed over and is compared per form in C15); lists sampled by a seeded random subset"),
+ "C17": dict(engine="C session", design_ref="5 C17",
+   technique="TLC model checking of Multi.tla (FilterPartition, FilterEqualsProfile) + replay of every state into filter_by_spike_sync and relational checks on the code",
+   text="The filter is modelled as the per-spike sum of the pairwise coincidence indicators over the other trains with keep iff count > thr*(N-1); TLC checks the partition property and that the count equals the multivariate profile value at unshared spike times. Each state is replayed (kept / removed arrays compared exactly, thresholds k/(N-1) hit exactly and mid-points) and the code is additionally checked for: partition in order on the original interval, monotonicity over 7 thresholds, agreement with spike_sync_profile(list), same result with / without return_removed_spikes, inputs unchanged; both coincidence_single implementations.",
+   note="N = 2, 3, 4; small grid; lists sampled in the quick tier"),
+ "C18": dict(engine="C session", design_ref="5 C18",
+   technique="TLC enumeration (Multi.tla, WellFormed) of every list of degenerate trains x every public entry point x keywords + structural check of what the code returns",
+   text="All lists of 2-4 trains drawn from the degenerate trains (no spike, one spike at every grid position incl. both edges, spikes on both edges, identical trains) plus a sampled slice of ordinary trains; TLC checks WellFormed on the spec result; every state is executed on the code in every call form under both backends and the returned object is checked: no exception, axis from t_start to t_end, strictly increasing (discrete: non-decreasing, framed), consistent lengths, positive multiplicities, all values finite; the bivariate-only functions are run on every ordered pair, normalised and not.",
+   note="structural oracle; values are C01-C06; under the transliterated .pyx backend out-of-bounds accesses of the kernels are detected too"),
+})
 NOT_YET = {}
 
 def main():
@@ -89,6 +115,7 @@ def main():
                   "source_commits": [], "add_only": True},
         "engines": [
             {"name": "A pair-scan", "path": "spec/IsiScan.tla spec/SpikeScan.tla spec/SyncScan.tla spec/SingleScan.tla harness/checkers.py", "serves_properties": ["C01", "C02", "C03", "C04"], "kind_free_text": "TLC exhaustive over all train pairs x keywords, JSON export of terminal states, replay into python backend, transliterated .pyx kernels and public API"},
+            {"name": "C session", "path": "spec/Multi.tla spec/Reconcile.tla harness/checkers_multi.py", "serves_properties": ["C04", "C05", "C06", "C08", "C13", "C14", "C15", "C17", "C18"], "kind_free_text": "TLC enumerates lists x entry point x index selection x interval x keywords and computes the expected result the code's way (pair generation, recursive halving, transcribed adds); states replayed through pyspike.* in every call form under both backends"},
             {"name": "B function objects", "path": "spec/FuncObjects.tla spec/FuncQuery.tla harness/checkers_func.py", "serves_properties": ["C09", "C10", "C11"], "kind_free_text": "TLC exhaustive over heaps of function objects and over (function, query) pairs; every transition / state replayed into the real classes"},
             {"name": "A + B (twins)", "path": "harness/checkers_rel.py (twin_*) harness/pyxshim.py", "serves_properties": ["C12"], "kind_free_text": "both members of each routine pair executed on every TLC export"},
             {"name": "A pair-scan (relations)", "path": "spec/Relations.tla harness/checkers_rel.py", "serves_properties": ["C07", "C08", "C15", "C16"], "kind_free_text": "TLC checks the relation on the declarative definitions for all pairs; each state is one case executed on the code before/after the transformation"},
